@@ -443,7 +443,17 @@ pub fn op_ports(args: &[Sexp]) -> String {
                     to: Placeable::Port { inst: insts[j].clone(), port: "PPP".into() }, align: Align::Center, side: Side::Left, sep: Separation::z(2) } })));
             }
         }
+        // a variant of the same layout in the same library (as `Layout::clone()` makes one): it shares the instance OBJECTS that
+        // stand in `places`; both layouts are placed in one run and each must end up holding every one of its instances
+        let mut twin = Layout::new("twin", 3, Outline::rect(40, 35).ok()?);
+        let mut twin_names: Vec<String> = vec![];
+        for e in &order {
+            let j = (*e / 2) as usize;
+            if e % 2 == 0 && flags[j] >= 1 { twin.places.push(Placeable::Instance(insts[j].clone())); twin_names.push(format!("i{}", j)); }
+        }
+        twin_names.sort();
         let parent = lib.cells.add(parent);
+        let twin = lib.cells.add(twin);
         let st = stack().ok()?;
         Some(match Placer::place(lib, st) {
             Err(_) => "err".into(),
@@ -454,7 +464,12 @@ pub fn op_ports(args: &[Sexp]) -> String {
                 names.sort();
                 let mut nets: Vec<String> = ly.assignments.iter().map(|a| a.net.clone()).collect();
                 nets.sort();
-                format!("ok (insts {}) (assigns {}) (left {})", names.join(" "), nets.join(" "), ly.places.len())
+                let tw = twin.read().ok()?;
+                let tl = tw.layout.as_ref()?;
+                let mut tnames: Vec<String> = tl.instances.iter().map(|i| i.read().unwrap().inst_name.clone()).collect();
+                tnames.sort();
+                let twin_note = if tnames == twin_names && tl.places.is_empty() { String::new() } else { format!(" (twin-holds {} of {})", tnames.join(","), twin_names.join(",")) };
+                format!("ok (insts {}) (assigns {}) (left {}){}", names.join(" "), nets.join(" "), ly.places.len(), twin_note)
             }
         })
     })();
